@@ -239,7 +239,7 @@ static ec_curve_str_t ec_curve_str[] = {
 		/*.name =*/	"brainpoolP160r1",
 		/*.name_size =*/15,
 		/*.OID =*/	"1.3.36.3.3.2.8.1.1.1",
-		/*.OID_size =*/	12,
+		/*.OID_size =*/	20,
 		/*.num_size =*/	40,
 		/*.t =*/	80,
 		/*.m =*/	160,
@@ -279,7 +279,7 @@ static ec_curve_str_t ec_curve_str[] = {
 		/*.name =*/	"secp192r1",
 		/*.name_size =*/9,
 		/*.OID =*/	"1.2.840.10045.3.1.1",
-		/*.OID_size =*/	20,
+		/*.OID_size =*/	19,
 		/*.num_size =*/	48,
 		/*.t =*/	96,
 		/*.m =*/	192,
@@ -359,7 +359,7 @@ static ec_curve_str_t ec_curve_str[] = {
 		/*.name =*/	"brainpoolP224r1",
 		/*.name_size =*/15,
 		/*.OID =*/	"1.3.36.3.3.2.8.1.1.5",
-		/*.OID_size =*/	12,
+		/*.OID_size =*/	20,
 		/*.num_size =*/	56,
 		/*.t =*/	112,
 		/*.m =*/	224,
@@ -419,7 +419,7 @@ static ec_curve_str_t ec_curve_str[] = {
 		/*.name =*/	"brainpoolP256r1",
 		/*.name_size =*/15,
 		/*.OID =*/	"1.3.36.3.3.2.8.1.1.7",
-		/*.OID_size =*/	19,
+		/*.OID_size =*/	20,
 		/*.num_size =*/	64,
 		/*.t =*/	128,
 		/*.m =*/	256,
@@ -457,7 +457,7 @@ static ec_curve_str_t ec_curve_str[] = {
 		/*.flags =*/	EC_CURVE_FLAG_A_M3,
 	}, {
 		/*.name =*/	"id-gostR3410-2001-Test_ParamSet",
-		/*.name_size =*/30,
+		/*.name_size =*/31,
 		/*.OID =*/	"1.2.643.2.2.35.0",
 		/*.OID_size =*/	16,
 		/*.num_size =*/	64,
@@ -579,7 +579,7 @@ static ec_curve_str_t ec_curve_str[] = {
 		/*.name =*/	"brainpoolP320r1",
 		/*.name_size =*/15,
 		/*.OID =*/	"1.3.36.3.3.2.8.1.1.9",
-		/*.OID_size =*/	19,
+		/*.OID_size =*/	20,
 		/*.num_size =*/	80,
 		/*.t =*/	160,
 		/*.m =*/	320,
@@ -619,7 +619,7 @@ static ec_curve_str_t ec_curve_str[] = {
 		/*.name =*/	"brainpoolP384r1",
 		/*.name_size =*/15,
 		/*.OID =*/	"1.3.36.3.3.2.8.1.1.11",
-		/*.OID_size =*/	19,
+		/*.OID_size =*/	21,
 		/*.num_size =*/	96,
 		/*.t =*/	192,
 		/*.m =*/	384,
@@ -639,7 +639,7 @@ static ec_curve_str_t ec_curve_str[] = {
 		/*.name =*/	"brainpoolP512r1",
 		/*.name_size =*/15,
 		/*.OID =*/	"1.3.36.3.3.2.8.1.1.13",
-		/*.OID_size =*/	19,
+		/*.OID_size =*/	21,
 		/*.num_size =*/	128,
 		/*.t =*/	254,
 		/*.m =*/	512,
